@@ -29,31 +29,55 @@ def withcnt(d, cnt):
 
 def cache_cfgs():
     c = []
-    real = {"VF_INRANGE": None, "_unwindset": uw(8)}                  # the real geometry: CACHE_SIZE 8, WRITE_DIRECT_SIZE 4
-    small = {"E2FSPROGS_VERIF_CACHE_SIZE": 4, "E2FSPROGS_VERIF_WRITE_DIRECT_SIZE": 2, "NBLK": 6, "VF_INRANGE": None, "_unwindset": uw(4)}
+    T = {"_tier": "thorough"}
+    # back ends: measured -- the direct / whole-cache paths are kissat's (15-40 s vs > 300 s for minisat),
+    # the cached single-block paths minisat's
+    real = {"VF_INRANGE": None, "_unwindset": uw(8), "_backends": ["kissat", "default"]}   # the real geometry: CACHE_SIZE 8, WRITE_DIRECT_SIZE 4
+    small = {"E2FSPROGS_VERIF_CACHE_SIZE": 4, "E2FSPROGS_VERIF_WRITE_DIRECT_SIZE": 2, "NBLK": 6, "VF_INRANGE": None, "_unwindset": uw(4), "_backends": ["default", "kissat"]}
     tiny = {"E2FSPROGS_VERIF_CACHE_SIZE": 3, "E2FSPROGS_VERIF_WRITE_DIRECT_SIZE": 2, "NBLK": 5, "VF_INRANGE": None, "_unwindset": uw(3)}
     for op in ("READ", "WRITE"):
-        for cnt in (1, 5, -3, -4):
+        # direct paths (count > WRITE_DIRECT_SIZE, byte counts) at the real geometry
+        for cnt in (5, -3):
             c.append(dict(withcnt(real, cnt), OP=OPS[op]))
+        c.append(dict(withcnt(real, -4), OP=OPS[op], **T))
+        c.append(dict(withcnt(real, 6), OP=OPS[op], **T))
+        # cached single block: scaled geometry in quick, real geometry in thorough
         c.append(dict(withcnt(small, 1), OP=OPS[op]))
-        c.append(dict(withcnt(tiny, 2), OP=OPS[op]))
-        for cnt in (2, 3):                        # cached multi-block (2) and direct (3) at the scaled geometry
-            c.append(dict(withcnt(small, cnt), OP=OPS[op]))
-        c.append(dict(withcnt(real, 2), OP=OPS[op], _tier="thorough"))
-        c.append(dict(withcnt(real, 4), OP=OPS[op], _tier="thorough"))
+        c.append(dict(withcnt(real, 1), OP=OPS[op], **T))
+        # cached multi-block and the direct boundary (count = WRITE_DIRECT_SIZE + 1) at the scaled geometry
+        c.append(dict(withcnt(small, 3), OP=OPS[op]))
+        c.append(dict(withcnt(tiny, 2), OP=OPS[op], **T))
+        c.append(dict(withcnt(small, 2), OP=OPS[op], **T))
+        c.append(dict(withcnt(real, 2), OP=OPS[op], **T))
+        c.append(dict(withcnt(real, 4), OP=OPS[op], **T))
+        # three cached blocks in one request (scaled: 4 entries, direct threshold 3)
+        c.append(dict(withcnt(dict(small, E2FSPROGS_VERIF_WRITE_DIRECT_SIZE=3), 3), OP=OPS[op], **T))
     for op in ("WRITE_BYTE", "FLUSH", "ZEROOUT", "DISCARD", "SET_BLKSIZE", "CLOSE", "CACHE_OFF"):
         c.append(dict(real, OP=OPS[op]))
-    c.append(dict(withcnt(real, 1), OP=OPS["WRITE"], WITH_WRITETHROUGH=None))
-    c.append(dict(withcnt(small, 2), OP=OPS["WRITE"], WITH_WRITETHROUGH=None))
+    c.append(dict(withcnt(small, 1), OP=OPS["WRITE"], WITH_WRITETHROUGH=None))
+    c.append(dict(withcnt(real, 1), OP=OPS["WRITE"], WITH_WRITETHROUGH=None, **T))
+    c.append(dict(withcnt(small, 2), OP=OPS["WRITE"], WITH_WRITETHROUGH=None, **T))
+    # fault schedules: the k-th device write (k symbolic) of the operation fails
+    c.append(dict(withcnt(small, 1), OP=OPS["WRITE"], FAULT=None))
+    c.append(dict(withcnt(small, 1), OP=OPS["WRITE"], FAULT=None, WITH_WRITETHROUGH=None))
+    c.append(dict(withcnt(small, 3), OP=OPS["WRITE"], FAULT=None))
+    c.append(dict(small, OP=OPS["FLUSH"], FAULT=None))
     c.append(dict(withcnt(real, 1), OP=OPS["WRITE"], WITH_NOCACHE=None))
     c.append(dict(withcnt(real, 1), OP=OPS["READ"], WITH_NOCACHE=None))
     return c
 
 HARNESSES = [
+    dict(name="rw_partition", src="rw_partition.c",
+         cut_statics={"lib/ext2fs/rw_bitmaps.c": ["read_bitmaps_range_start"]},
+         funcs=["ext2fs_rw_bitmaps", "read_bitmaps_range_prepare", "read_bitmaps_range_end"],
+         unwind=6, unwindset=["main.0:6", "main.1:6", "main.2:6", "strcpy.0:24", "strcat.0:24", "strcat.1:24", "strlen.0:24"],
+         backends=["default", "kissat", "z3"],
+         bound="group_desc_count: all 2^32 values; requested threads: any int, at most 4 started; "
+               "s_log_groups_per_flex 0..31, flex_bg on/off; per-thread tail flags and error codes symbolic"),
     dict(name="cache", src="cache.c",
          funcs=["unix_read_blk64", "find_cached_block", "reuse_cache",
                 "raw_read_blk", "raw_write_blk"],
-         configs=cache_cfgs(), unwind=7, backends=["default", "kissat"],
+         configs=cache_cfgs(), unwind=7, backends=["default", "kissat"], cap_quick=300,
          bound="block size 2 bytes, 12 blocks; all 8 (scaled: 4) cache entries symbolic under Inv; one operation, "
                "count concrete per query in {1,2,3,4,5,-3,-4}, block/offset/data symbolic"),
 ]
